@@ -77,7 +77,7 @@ func body(r *vf.Run) {
 	case "gen":
 		// development aid: generate every input of the tier and report generator panics / sizes
 		pool := newPool(r)
-		n := envInt("C04_N", r.N(6000, 30000))
+		n := envInt("C04_N", r.N(6000, 24000))
 		var total int64
 		for i := 0; i < n; i++ {
 			p, v, st := vf.Recover(func() {
@@ -117,7 +117,7 @@ type crashed struct {
 }
 
 func top(r *vf.Run) {
-	n := r.N(6000, 30000)
+	n := r.N(6000, 24000)
 	n = envInt("C04_N", n)
 	from0 := envInt("C04_FROM", 0)
 	par := envInt("C04_PAR", r.N(8, 12))
